@@ -1,4 +1,5 @@
 import I18nVerif.Proofs.Foreign
+import I18nVerif.Proofs.ForeignWalk
 /-!
 # C06 — Foreign keys are pure substitution
 
@@ -8,6 +9,10 @@ Model: `I18nVerif.Model.Foreign` (`parsed_value.rs:441-579`, `ranges.rs:455-748`
 
 All theorems quantify over every value tree, every argument map, every world and every amount of
 fuel; nothing is bounded.
+
+State of the model: after the repair of defects F11/F20 (`resolve_foreign_key_inner` follows the `inherits`
+fallback walk: `findDefining`).  `dflt : Fallbacks` is the default locale + the `inherits` table.  Section 6 states
+the repaired behaviour outright.
 -/
 namespace I18nVerif.Foreign
 open I18nVerif I18nVerif.Subst
@@ -59,32 +64,69 @@ theorem C06_populate_chain (orc : Oracle) (locale : Str) (args₁ args₂ : List
 /-- **A resolved reference renders what its target renders, arguments substituted.**
     Whatever the resolution of a `$t(target, args)` node returns is `Set r'` where `r'` renders, under
     every `ρ`, as the *resolved* target value under `substEnv ρ args'` (`args'` = the resolved
-    arguments).  The statement does not mention the position of the keys in the file, nor the
+    arguments).  `(src, value)` is what the fallback walk of the node's locale found (`value` is stored at
+    `(src, target)`, `C06_target_from_fallback_walk`); the target is resolved as a key of locale `src`, the arguments
+    in the locale `top` of the reference, and the oracle that matters is the one of `top`.
+    The statement does not mention the position of the keys in the file, nor the
     namespace part of `target`: resolution is a function of `getValueAt` only. -/
-theorem C06_resolveNode_sound (orc : Oracle) (w : World) (dflt : Str) (fuel : Nat) (vis : List KeyId)
-    (phys : KeyId) (top : Str) (target : KeyPath) (args : List (Str × PV)) (mj : Bool) (value r : PV)
-    (hget : w.getValueAt top target = .ok (some value)) (hnd : value ≠ .dflt)
-    (hr : resolveNode orc w dflt (fuel + 1) vis phys top target args mj = .ok r) :
+theorem C06_resolveNode_sound (orc : Oracle) (w : World) (dflt : Fallbacks) (fuel : Nat) (vis : List KeyId)
+    (phys : KeyId) (top : Str) (target : KeyPath) (args : List (Str × PV)) (src : Str) (value r : PV)
+    (hfd : findDefining w dflt (dflt.inherits.length + 2) [] top target = .ok (src, value))
+    (hr : resolveNode orc w dflt (fuel + 1) vis phys top target args = .ok r) :
     ∃ value' args',
-      resolvePV orc w dflt fuel (phys :: vis) (top, target) top value = .ok value' ∧
+      resolvePV orc w dflt fuel (phys :: vis) (src, target) src value = .ok value' ∧
       resolveArgs orc w dflt fuel (phys :: vis) phys top args = .ok args' ∧
       ∀ ρ, OracleAgrees orc top ρ → PluralsWf value' = true →
         Eval.eval ρ r = Eval.eval (substEnv ρ args') value' := by
-  obtain ⟨value', args', v, _, hv, ha, hp, rfl⟩ :=
-    resolveNode_ok_inv orc w dflt fuel vis phys top target args mj hget hnd hr
+  obtain ⟨src', value0, value', args', v, hfd', _, hv, ha, hp, rfl⟩ :=
+    resolveNode_ok_inv_walk orc w dflt fuel vis phys top target args hr
+  rw [show nodeWalk w dflt top target = _ from hfd] at hfd'
+  simp only [Res.ok.injEq, Prod.mk.injEq] at hfd'
+  obtain ⟨rfl, rfl⟩ := hfd'
   refine ⟨value', args', hv, ha, fun ρ hO hwf => ?_⟩
   simp only [Eval.eval]
   exact C06_populate_subst orc top args' ρ value' v hO hwf hp
 
-/-- an explicit `null` target: the reference is resolved against the default locale instead
-    (once: a `null` there is an error) -/
-theorem C06_resolveNode_default_jump (orc : Oracle) (w : World) (dflt : Str) (fuel : Nat)
-    (vis : List KeyId) (phys : KeyId) (top : Str) (target : KeyPath) (args : List (Str × PV)) (mj : Bool)
-    (hget : w.getValueAt top target = .ok (some .dflt)) :
-    resolveNode orc w dflt (fuel + 1) vis phys top target args mj =
-      if top == dflt || !mj then .err "ExplicitDefaultInDefault"
-      else resolveNode orc w dflt fuel vis phys dflt target args false := by
-  rw [resolveNode_succ, hget]
+/-- the statement as it was before the repair — the locale of the reference itself defines the target (then
+    `src = top`) -/
+theorem C06_resolveNode_sound_here (orc : Oracle) (w : World) (dflt : Fallbacks) (fuel : Nat) (vis : List KeyId)
+    (phys : KeyId) (top : Str) (target : KeyPath) (args : List (Str × PV)) (value r : PV)
+    (hget : w.getValueAt top target = .ok (some value)) (hnd : value ≠ .dflt)
+    (hr : resolveNode orc w dflt (fuel + 1) vis phys top target args = .ok r) :
+    ∃ value' args',
+      resolvePV orc w dflt fuel (phys :: vis) (top, target) top value = .ok value' ∧
+      resolveArgs orc w dflt fuel (phys :: vis) phys top args = .ok args' ∧
+      ∀ ρ, OracleAgrees orc top ρ → PluralsWf value' = true →
+        Eval.eval ρ r = Eval.eval (substEnv ρ args') value' :=
+  C06_resolveNode_sound orc w dflt fuel vis phys top target args top value r
+    (nodeWalk_here w dflt top target hget hnd) hr
+
+/-- the target is an explicit `null` (or absent) in the locale of the reference: in the default locale this is the
+    error `ExplicitDefaultInDefault` (`MissingForeignKey`); in any other locale the reference is resolved with the
+    value found by walking on from the next locale of the fallback walk (`top` marked visited) — the arguments and
+    the population stay in `top` (`afterWalk`).  Before the repair: one jump straight to the default locale. -/
+theorem C06_resolveNode_default_jump (orc : Oracle) (w : World) (dflt : Fallbacks) (fuel : Nat)
+    (vis : List KeyId) (phys : KeyId) (top : Str) (target : KeyPath) (args : List (Str × PV))
+    (hget : w.getValueAt top target = .ok (some .dflt) ∨ w.getValueAt top target = .ok none) :
+    resolveNode orc w dflt (fuel + 1) vis phys top target args =
+      if top == dflt.default then
+        .err (match w.getValueAt top target with
+          | .ok none => "MissingForeignKey"
+          | _ => "ExplicitDefaultInDefault")
+      else afterWalk orc w dflt fuel vis phys top target args
+        (findDefining w dflt (dflt.inherits.length + 1) [top] (nextLocale dflt [top] top) target) := by
+  rw [resolveNode_afterWalk]
+  have hu : Undef w top target := hget.symm
+  cases hd : top == dflt.default with
+  | false =>
+    rw [show nodeWalk w dflt top target = _ from findDefining_step w dflt _ [] top target hu hd]
+    simp
+  | true =>
+    rcases hget with h | h
+    · rw [show nodeWalk w dflt top target = _ from findDefining_default_null w dflt _ [] top target h hd]
+      simp [afterWalk, h]
+    · rw [show nodeWalk w dflt top target = _ from findDefining_default_none w dflt _ [] top target h hd]
+      simp [afterWalk, h]
 
 /-! ## 2. Rejections and the only panic -/
 
@@ -101,31 +143,46 @@ theorem C06_populate_errors (orc : Oracle) (locale : Str) (args : List (Str × P
     (hs : HasSubkeys (isLitCount args) v = true) : ∀ v', populate orc locale args v ≠ .ok v' :=
   fun v' => populate_hasSubkeys orc locale args v v' hs
 
-/-- a reference whose target is a subkey group is never resolved; when the arguments resolve and
-    there is no cycle the error is `InvalidForeignKey` -/
-theorem C06_resolveNode_subkeys_target (orc : Oracle) (w : World) (dflt : Str) (fuel : Nat)
-    (vis : List KeyId) (phys : KeyId) (top : Str) (target : KeyPath) (args : List (Str × PV)) (mj : Bool)
-    (l : Option Loc) (hget : w.getValueAt top target = .ok (some (.subkeys l))) :
-    (∀ r, resolveNode orc w dflt (fuel + 2) vis phys top target args mj ≠ .ok r) ∧
-    (∀ args', (top, target) ∉ phys :: vis →
+/-- a reference whose target (what the fallback walk finds) is a subkey group is never resolved; when the
+    arguments resolve and there is no cycle the error is `InvalidForeignKey` -/
+theorem C06_resolveNode_subkeys_target (orc : Oracle) (w : World) (dflt : Fallbacks) (fuel : Nat)
+    (vis : List KeyId) (phys : KeyId) (top : Str) (target : KeyPath) (args : List (Str × PV)) (src : Str)
+    (l : Option Loc)
+    (hfd : findDefining w dflt (dflt.inherits.length + 2) [] top target = .ok (src, .subkeys l)) :
+    (∀ r, resolveNode orc w dflt (fuel + 2) vis phys top target args ≠ .ok r) ∧
+    (∀ args', (src, target) ∉ phys :: vis →
       resolveArgs orc w dflt (fuel + 1) (phys :: vis) phys top args = .ok args' →
-      resolveNode orc w dflt (fuel + 2) vis phys top target args mj = .err "InvalidForeignKey") := by
-  have hv : resolvePV orc w dflt (fuel + 1) (phys :: vis) (top, target) top (.subkeys l) = .ok (.subkeys l) := by
+      resolveNode orc w dflt (fuel + 2) vis phys top target args = .err "InvalidForeignKey") := by
+  have hv : resolvePV orc w dflt (fuel + 1) (phys :: vis) (src, target) src (.subkeys l) = .ok (.subkeys l) := by
     simp only [resolvePV]
   constructor
   · intro r hr
-    obtain ⟨value', args', v, _, hv', _, hp, _⟩ :=
-      resolveNode_ok_inv orc w dflt (fuel + 1) vis phys top target args mj hget (by simp) hr
+    obtain ⟨src', value0, value', args', v, hfd', _, hv', _, hp, _⟩ :=
+      resolveNode_ok_inv_walk orc w dflt (fuel + 1) vis phys top target args hr
+    rw [show nodeWalk w dflt top target = _ from hfd] at hfd'
+    simp only [Res.ok.injEq, Prod.mk.injEq] at hfd'
+    obtain ⟨rfl, rfl⟩ := hfd'
     rw [hv] at hv'
     simp only [Res.ok.injEq] at hv'
     subst hv'
     simp [populate] at hp
   · intro args' hin ha
-    rw [resolveNode_succ, hget]
-    have hc : (phys :: vis).contains (top, target) = false := by
+    rw [resolveNode_succ, hfd]
+    have hc : (phys :: vis).contains (src, target) = false := by
       simpa using hin
     simp only [hc, hv, ha, populate]
     rfl
+
+/-- in particular when the subkey group is in the locale of the reference (the statement before the repair) -/
+theorem C06_resolveNode_subkeys_target_here (orc : Oracle) (w : World) (dflt : Fallbacks) (fuel : Nat)
+    (vis : List KeyId) (phys : KeyId) (top : Str) (target : KeyPath) (args : List (Str × PV))
+    (l : Option Loc) (hget : w.getValueAt top target = .ok (some (.subkeys l))) :
+    (∀ r, resolveNode orc w dflt (fuel + 2) vis phys top target args ≠ .ok r) ∧
+    (∀ args', (top, target) ∉ phys :: vis →
+      resolveArgs orc w dflt (fuel + 1) (phys :: vis) phys top args = .ok args' →
+      resolveNode orc w dflt (fuel + 2) vis phys top target args = .err "InvalidForeignKey") :=
+  C06_resolveNode_subkeys_target orc w dflt fuel vis phys top target args top l
+    (nodeWalk_here w dflt top target hget (by simp))
 
 /-- **The only panic.**  If `populate` panics, the site is `oracle: plural category missing`, the
     count argument is a literal number and the oracle table has no entry for it although the locale
@@ -184,50 +241,91 @@ theorem C06_noNotSet_setClosed (v : PV) (h : NoNotSet v = true) : SetClosed v = 
 `Reduce.reduce` goes — including inside the `Set` nodes it created and inside the arguments it
 substituted.  For every fuel.
 -/
-theorem C06_resolved_no_notset (orc : Oracle) (w : World) (dflt : Str) (fuel : Nat)
+theorem C06_resolved_no_notset (orc : Oracle) (w : World) (dflt : Fallbacks) (fuel : Nat)
     (visiting : List KeyId) (phys : KeyId) (top : Str) (v v' : PV)
     (hW : WorldClosed w) (hv : SetClosed v = true)
     (h : resolvePV orc w dflt fuel visiting phys top v = .ok v') : NoNotSet v' = true :=
   (resolve_noNotSet orc w dflt hW fuel).1 visiting phys top v v' hv h
 
 /-- the same for one `$t(..)` node -/
-theorem C06_resolved_no_notset_node (orc : Oracle) (w : World) (dflt : Str) (fuel : Nat)
+theorem C06_resolved_no_notset_node (orc : Oracle) (w : World) (dflt : Fallbacks) (fuel : Nat)
     (visiting : List KeyId) (phys : KeyId) (top : Str) (target : KeyPath) (args : List (Str × PV))
-    (mj : Bool) (v' : PV) (hW : WorldClosed w) (ha : SetClosedK args = true)
-    (h : resolveNode orc w dflt fuel visiting phys top target args mj = .ok v') : NoNotSet v' = true :=
-  (resolve_noNotSet orc w dflt hW fuel).2.1 visiting phys top target args mj v' ha h
+    (v' : PV) (hW : WorldClosed w) (ha : SetClosedK args = true)
+    (h : resolveNode orc w dflt fuel visiting phys top target args = .ok v') : NoNotSet v' = true :=
+  (resolve_noNotSet orc w dflt hW fuel).2.1 visiting phys top target args v' ha h
 
 /-! ## 4. Missing targets, cycles, termination -/
 
-/-- (a) the referenced key does not exist: `MissingForeignKey` -/
-theorem C06_resolve_missing (orc : Oracle) (w : World) (dflt : Str) (fuel : Nat) (vis : List KeyId)
+/-- (a) the referenced key does not exist — no locale defines it, the default locale does not have it:
+    `MissingForeignKey`, from whichever locale the reference is made (before the repair this was the outcome as soon
+    as the locale of the reference did not have the key, F20).  `hp`: no lookup panics (emptied subkey group). -/
+theorem C06_resolve_missing (orc : Oracle) (w : World) (dflt : Fallbacks) (fuel : Nat) (vis : List KeyId)
     (phys : KeyId) (top : Str) (target : KeyPath) (args : List (Str × PV))
-    (h : w.getValueAt top target = .ok none) :
+    (hu : ∀ x, definesAt w target x = false) (hp : ∀ x p, w.getValueAt x target ≠ .panic p)
+    (h : w.getValueAt dflt.default target = .ok none) :
     resolvePV orc w dflt (fuel + 2) vis phys top (.fk (.notSet target args)) = .err "MissingForeignKey" := by
   rw [resolvePV_notSet]
-  exact resolveNode_missing orc w dflt fuel vis phys top target args true h
+  cases hw : nodeWalk w dflt top target with
+  | ok r =>
+    obtain ⟨src, v⟩ := r
+    obtain ⟨hs, hv⟩ := findDefining_ok_stored w dflt _ _ _ _ _ _ hw
+    have := hu src
+    rw [definesAt_of_stored hs hv] at this
+    cases this
+  | panic p =>
+    obtain ⟨x, hx⟩ := findDefining_fuel w dflt target _ [] top List.nodup_nil (by simp) (by simp) (by simp) p hw
+    exact absurd hx (hp x p)
+  | err e =>
+    rcases findDefining_err_inv w dflt target _ _ _ e hw with ⟨rfl, _⟩ | ⟨_, h'⟩
+    · exact resolveNode_walk_err orc w dflt (fuel) vis phys top target args hw
+    · rw [h] at h'; simp at h'
 
-/-- (b) the referenced key is the key being resolved, or one whose resolution is in progress:
-    `RecursiveForeignKey` -/
-theorem C06_resolve_cycle (orc : Oracle) (w : World) (dflt : Str) (fuel : Nat) (vis : List KeyId)
+/-- the key exists in no locale at all -/
+theorem C06_resolve_missing_everywhere (orc : Oracle) (w : World) (dflt : Fallbacks) (fuel : Nat) (vis : List KeyId)
+    (phys : KeyId) (top : Str) (target : KeyPath) (args : List (Str × PV))
+    (h : ∀ x, w.getValueAt x target = .ok none) :
+    resolvePV orc w dflt (fuel + 2) vis phys top (.fk (.notSet target args)) = .err "MissingForeignKey" :=
+  C06_resolve_missing orc w dflt fuel vis phys top target args
+    (fun x => definesAt_of_undef (.inl (h x))) (fun x p => by rw [h x]; simp) (h _)
+
+/-- the statement before the repair (`getValueAt top target = ok none → MissingForeignKey`) now holds for a
+    reference made in the default locale -/
+theorem C06_resolve_missing_default (orc : Oracle) (w : World) (dflt : Fallbacks) (fuel : Nat) (vis : List KeyId)
+    (phys : KeyId) (top : Str) (target : KeyPath) (args : List (Str × PV))
+    (h : w.getValueAt top target = .ok none) (hd : top = dflt.default) :
+    resolvePV orc w dflt (fuel + 2) vis phys top (.fk (.notSet target args)) = .err "MissingForeignKey" := by
+  rw [resolvePV_notSet]
+  exact resolveNode_missing orc w dflt fuel vis phys top target args h (by simp [hd])
+
+/-- (b) the referenced key (the key `(src, target)` found by the fallback walk) is the key being resolved, or one
+    whose resolution is in progress: `RecursiveForeignKey` -/
+theorem C06_resolve_cycle (orc : Oracle) (w : World) (dflt : Fallbacks) (fuel : Nat) (vis : List KeyId)
+    (phys : KeyId) (top : Str) (target : KeyPath) (args : List (Str × PV)) (src : Str) (value : PV)
+    (h : findDefining w dflt (dflt.inherits.length + 2) [] top target = .ok (src, value))
+    (hin : (src, target) ∈ phys :: vis) :
+    resolvePV orc w dflt (fuel + 2) vis phys top (.fk (.notSet target args)) = .err "RecursiveForeignKey" := by
+  rw [resolvePV_notSet]
+  exact resolveNode_recursive_walk orc w dflt fuel vis phys top target args h hin
+
+/-- the statement before the repair: the key is defined in the locale of the reference -/
+theorem C06_resolve_cycle_here (orc : Oracle) (w : World) (dflt : Fallbacks) (fuel : Nat) (vis : List KeyId)
     (phys : KeyId) (top : Str) (target : KeyPath) (args : List (Str × PV)) (value : PV)
     (h : w.getValueAt top target = .ok (some value)) (hnd : value ≠ .dflt)
     (hin : (top, target) ∈ phys :: vis) :
-    resolvePV orc w dflt (fuel + 2) vis phys top (.fk (.notSet target args)) = .err "RecursiveForeignKey" := by
-  rw [resolvePV_notSet]
-  exact resolveNode_recursive orc w dflt fuel vis phys top target args true h hnd hin
+    resolvePV orc w dflt (fuel + 2) vis phys top (.fk (.notSet target args)) = .err "RecursiveForeignKey" :=
+  C06_resolve_cycle orc w dflt fuel vis phys top target args top value (nodeWalk_here w dflt top target h hnd) hin
 
 /-- a key that refers to itself: rejected for every fuel ≥ 2 -/
-theorem C06_resolve_self_reference (orc : Oracle) (w : World) (dflt : Str) (fuel : Nat) (top : Str)
+theorem C06_resolve_self_reference (orc : Oracle) (w : World) (dflt : Fallbacks) (fuel : Nat) (top : Str)
     (p : KeyPath) (args : List (Str × PV)) (value : PV)
     (h : w.getValueAt top p = .ok (some value)) (hnd : value ≠ .dflt) (hf : 2 ≤ fuel) :
     resolvePV orc w dflt fuel [] (top, p) top (.fk (.notSet p args)) = .err "RecursiveForeignKey" := by
   obtain ⟨n, rfl⟩ : ∃ n, fuel = n + 2 := ⟨fuel - 2, by omega⟩
-  exact C06_resolve_cycle orc w dflt n [] (top, p) top p args value h hnd (by simp)
+  exact C06_resolve_cycle_here orc w dflt n [] (top, p) top p args value h hnd (by simp)
 
 /-- two keys that refer to each other (`a: "$t(b)"`, `b: "$t(a)"`): rejected for every fuel ≥ 4,
     whatever the arguments -/
-theorem C06_resolve_two_cycle (orc : Oracle) (w : World) (dflt : Str) (fuel : Nat) (top : Str)
+theorem C06_resolve_two_cycle (orc : Oracle) (w : World) (dflt : Fallbacks) (fuel : Nat) (top : Str)
     (pa pb : KeyPath) (argsA argsB : List (Str × PV)) (hne : pa ≠ pb)
     (ha : w.getValueAt top pa = .ok (some (.fk (.notSet pb argsB))))
     (hb : w.getValueAt top pb = .ok (some (.fk (.notSet pa argsA)))) (hf : 4 ≤ fuel) :
@@ -235,8 +333,9 @@ theorem C06_resolve_two_cycle (orc : Oracle) (w : World) (dflt : Str) (fuel : Na
   obtain ⟨n, rfl⟩ : ∃ n, fuel = n + 4 := ⟨fuel - 4, by omega⟩
   have inner : resolvePV orc w dflt (n + 2) [(top, pa)] (top, pb) top (.fk (.notSet pa argsA))
       = .err "RecursiveForeignKey" :=
-    C06_resolve_cycle orc w dflt n [(top, pa)] (top, pb) top pa argsA _ ha (by simp) (by simp)
-  rw [resolvePV_notSet, resolveNode_succ, hb]
+    C06_resolve_cycle_here orc w dflt n [(top, pa)] (top, pb) top pa argsA _ ha (by simp) (by simp)
+  rw [resolvePV_notSet, resolveNode_succ,
+    show findDefining w dflt (dflt.inherits.length + 2) [] top pb = _ from nodeWalk_here w dflt top pb hb (by simp)]
   have hc : ([(top, pa)] : List KeyId).contains (top, pb) = false := by
     simp; intro h; exact hne h.symm
   simp only [hc, inner]
@@ -245,7 +344,7 @@ theorem C06_resolve_two_cycle (orc : Oracle) (w : World) (dflt : Str) (fuel : Na
 /-- (c) **Fuel only distinguishes "not enough".**  If a run with `fuel` did not end in
     `panic "fuel"`, every run with more fuel gives the same outcome (value, error or other panic).
     `resolvePV`/`resolveNode` are structurally recursive on the fuel, so they cannot loop. -/
-theorem C06_resolve_fuel_monotone (orc : Oracle) (w : World) (dflt : Str) (visiting : List KeyId)
+theorem C06_resolve_fuel_monotone (orc : Oracle) (w : World) (dflt : Fallbacks) (visiting : List KeyId)
     (phys : KeyId) (top : Str) (v : PV) (fuel fuel' : Nat) (hle : fuel ≤ fuel')
     (hne : resolvePV orc w dflt fuel visiting phys top v ≠ .panic "fuel") :
     resolvePV orc w dflt fuel' visiting phys top v = resolvePV orc w dflt fuel visiting phys top v := by
@@ -253,26 +352,26 @@ theorem C06_resolve_fuel_monotone (orc : Oracle) (w : World) (dflt : Str) (visit
   · exact absurd h hne
   · exact h
 
-theorem C06_resolve_fuel_monotone_ok (orc : Oracle) (w : World) (dflt : Str) (visiting : List KeyId)
+theorem C06_resolve_fuel_monotone_ok (orc : Oracle) (w : World) (dflt : Fallbacks) (visiting : List KeyId)
     (phys : KeyId) (top : Str) (v v' : PV) (fuel fuel' : Nat) (hle : fuel ≤ fuel')
     (h : resolvePV orc w dflt fuel visiting phys top v = .ok v') :
     resolvePV orc w dflt fuel' visiting phys top v = .ok v' := by
   rw [C06_resolve_fuel_monotone orc w dflt visiting phys top v fuel fuel' hle (by rw [h]; simp), h]
 
-theorem C06_resolve_fuel_monotone_err (orc : Oracle) (w : World) (dflt : Str) (visiting : List KeyId)
+theorem C06_resolve_fuel_monotone_err (orc : Oracle) (w : World) (dflt : Fallbacks) (visiting : List KeyId)
     (phys : KeyId) (top : Str) (v : PV) (e : String) (fuel fuel' : Nat) (hle : fuel ≤ fuel')
     (h : resolvePV orc w dflt fuel visiting phys top v = .err e) :
     resolvePV orc w dflt fuel' visiting phys top v = .err e := by
   rw [C06_resolve_fuel_monotone orc w dflt visiting phys top v fuel fuel' hle (by rw [h]; simp), h]
 
 /-- the same for a `$t(..)` node -/
-theorem C06_resolveNode_fuel_monotone (orc : Oracle) (w : World) (dflt : Str) (visiting : List KeyId)
-    (phys : KeyId) (top : Str) (target : KeyPath) (args : List (Str × PV)) (mj : Bool)
+theorem C06_resolveNode_fuel_monotone (orc : Oracle) (w : World) (dflt : Fallbacks) (visiting : List KeyId)
+    (phys : KeyId) (top : Str) (target : KeyPath) (args : List (Str × PV))
     (fuel fuel' : Nat) (hle : fuel ≤ fuel')
-    (hne : resolveNode orc w dflt fuel visiting phys top target args mj ≠ .panic "fuel") :
-    resolveNode orc w dflt fuel' visiting phys top target args mj =
-      resolveNode orc w dflt fuel visiting phys top target args mj := by
-  rcases resolveNode_mono orc w dflt visiting phys top target args mj hle with h | h
+    (hne : resolveNode orc w dflt fuel visiting phys top target args ≠ .panic "fuel") :
+    resolveNode orc w dflt fuel' visiting phys top target args =
+      resolveNode orc w dflt fuel visiting phys top target args := by
+  rcases resolveNode_mono orc w dflt visiting phys top target args hle with h | h
   · exact absurd h hne
   · exact h
 
@@ -282,7 +381,7 @@ theorem C06_resolveNode_fuel_monotone (orc : Oracle) (w : World) (dflt : Str) (v
     (given the fuel to walk over it): when key `k₂` refers to a key `k₁` that was resolved earlier,
     it finds the stored result and uses it unchanged — the stored result being, by purity of
     `resolvePV`, what resolving `k₁` from scratch gives. -/
-theorem C06_order_independent_partial (orc : Oracle) (w : World) (dflt : Str) (vis : List KeyId)
+theorem C06_order_independent_partial (orc : Oracle) (w : World) (dflt : Fallbacks) (vis : List KeyId)
     (phys : KeyId) (top : Str) (v : PV) (fuel : Nat) (hv : NoNotSet v = true) (hf : fuelNeed v ≤ fuel) :
     resolvePV orc w dflt fuel vis phys top v = .ok v :=
   resolvePV_id orc w dflt vis phys top v fuel hv hf
@@ -290,7 +389,7 @@ theorem C06_order_independent_partial (orc : Oracle) (w : World) (dflt : Str) (v
 /-- **The cycle guard only ever turns a success into an error.**  If a value resolves while the keys
     `V` are in progress, it resolves to the same result with fewer keys in progress — in particular
     on its own (`V' = []`). -/
-theorem C06_resolve_visiting_independent (orc : Oracle) (w : World) (dflt : Str) (fuel : Nat)
+theorem C06_resolve_visiting_independent (orc : Oracle) (w : World) (dflt : Fallbacks) (fuel : Nat)
     (V V' : List KeyId) (phys : KeyId) (top : Str) (v v' : PV) (hs : ∀ x ∈ V', x ∈ V)
     (h : resolvePV orc w dflt fuel V phys top v = .ok v') :
     resolvePV orc w dflt fuel V' phys top v = .ok v' :=
@@ -300,7 +399,7 @@ theorem C06_resolve_visiting_independent (orc : Oracle) (w : World) (dflt : Str)
     progress, any remaining fuel) gets the value it gets when it is resolved on its own — which is what
     makes the in-place, memoising implementation and the order of `resolve_foreign_keys` irrelevant
     for the *values* (together with `C06_order_independent_partial`). -/
-theorem C06_chain_independent (orc : Oracle) (w : World) (dflt : Str) (fuel₁ fuel₂ : Nat)
+theorem C06_chain_independent (orc : Oracle) (w : World) (dflt : Fallbacks) (fuel₁ fuel₂ : Nat)
     (V : List KeyId) (phys : KeyId) (top : Str) (v v₁ v₂ : PV)
     (h₁ : resolvePV orc w dflt fuel₁ V phys top v = .ok v₁)
     (h₂ : resolvePV orc w dflt fuel₂ [] phys top v = .ok v₂) : v₁ = v₂ := by
@@ -316,12 +415,179 @@ theorem C06_chain_independent (orc : Oracle) (w : World) (dflt : Str) (fuel₁ f
     produce worlds in which every key renders the same in every environment.  (Only successful runs
     are compared: which *error* is reported first does depend on the order.) -/
 def C06_order_independent_full_statement : Prop :=
-  ∀ (orc : Oracle) (dflt : Str) (fuel : Nat) (w w₁ w₂ : World) (paths paths' : List (Str × KeyPath)),
+  ∀ (orc : Oracle) (dflt : Fallbacks) (fuel : Nat) (w w₁ w₂ : World) (paths paths' : List (Str × KeyPath)),
     paths.Perm paths' →
     resolveAll orc dflt fuel paths w = .ok w₁ → resolveAll orc dflt fuel paths' w = .ok w₂ →
     ∀ (top : Str) (p : KeyPath) (v₁ v₂ : PV),
       w₁.getValueAt top p = .ok (some v₁) → w₂.getValueAt top p = .ok (some v₂) →
       ∀ ρ, Eval.eval ρ v₁ = Eval.eval ρ v₂
+
+/-! ## 6. The repaired behaviour (F11/F20): a reference reads its target along the fallback walk -/
+
+/-- "locale `x` defines `t`" — the presence predicate handed to the specification walk: a value is stored at
+    `(x, t)` and it is not an explicit `null` -/
+theorem C06_definesAt_iff (w : World) (t : KeyPath) (x : Str) :
+    definesAt w t x = true ↔ ∃ v, w.getValueAt x t = .ok (some v) ∧ v ≠ .dflt := definesAt_iff
+
+/--
+**A reference reads its target in the effective locale of the target.**  For every world, configuration and
+locale `top` of the reference, the fallback walk made by `resolveNode` (fuel `inherits.length + 2`)
+
+* never runs out of fuel;
+* when it returns `(src, v)`: `v` is the value stored at `(src, target)`, it is not an explicit `null`, and `src`
+  is *exactly* the locale designated by the specification walk of C03, `Spec.Fallback.effective inherits default
+  defined top` with `defined x :=` "a non-null value is stored at `(x, target)`" — the locale in which the accessor
+  of `target` renders it for `top`.
+
+No hypothesis on the configuration is needed for this direction (not even that the keys of `inherits` are distinct
+or that the default locale has no `inherits` entry): both walks follow `AMap.get?`, and wherever they could part
+(the walk reaches an undefined default locale) `findDefining` fails instead of returning a pair.
+-/
+theorem C06_target_from_fallback_walk (w : World) (fb : Fallbacks) (top : Str) (target : KeyPath) :
+    findDefining w fb (fb.inherits.length + 2) [] top target ≠ .panic "fuel" ∧
+    ∀ src v, findDefining w fb (fb.inherits.length + 2) [] top target = .ok (src, v) →
+      w.getValueAt src target = .ok (some v) ∧ v ≠ .dflt ∧
+      src = Spec.Fallback.effective fb.inherits fb.default (definesAt w target) top := by
+  refine ⟨nodeWalk_no_fuel_panic w fb top target, fun src v h => ?_⟩
+  obtain ⟨hs, hv⟩ := findDefining_ok_stored w fb _ _ _ _ _ _ h
+  refine ⟨hs, hv, ?_⟩
+  unfold Spec.Fallback.effective
+  exact (findDefining_ok_walk w fb target _ _ [] top src v List.nodup_nil (by simp) (by simp) (by simp)
+    (by simp) h).symm
+
+/-- the fuel is irrelevant from `inherits.length + 2` on (and a panic of the walk is a panic of `get_value_at`:
+    an emptied subkey group on the way to the target) -/
+theorem C06_walk_fuel_irrelevant (w : World) (fb : Fallbacks) (top : Str) (target : KeyPath) (fuel : Nat)
+    (hf : fb.inherits.length + 2 ≤ fuel) :
+    findDefining w fb fuel [] top target = findDefining w fb (fb.inherits.length + 2) [] top target ∧
+    ∀ p, findDefining w fb fuel [] top target = .panic p →
+      p = "get_value_at: empty subkeys" ∧ ∃ x, w.getValueAt x target = .panic p := by
+  refine ⟨findDefining_fuel_irrel w fb top target fuel hf, fun p h => ?_⟩
+  obtain ⟨x, hx⟩ := findDefining_fuel w fb target fuel [] top List.nodup_nil (by simp) (by simp)
+    (by simpa using hf) p h
+  exact ⟨getValueAt_panic_site w x target p hx, x, hx⟩
+
+/--
+**The errors of the walk come from the default locale only.**  At every point of the walk and for every fuel:
+an error of `findDefining` is `MissingForeignKey` and the default locale does not have the target, or
+`ExplicitDefaultInDefault` and the default locale has an explicit `null` there.  (`get_value_at` has no error of its
+own: `getValueAt_not_err`.)  In both cases the default locale does not define the target.
+-/
+theorem C06_missing_only_at_default (w : World) (fb : Fallbacks) (fuel : Nat) (visited : List Str) (cur : Str)
+    (target : KeyPath) (e : String) (h : findDefining w fb fuel visited cur target = .err e) :
+    ((e = "MissingForeignKey" ∧ w.getValueAt fb.default target = .ok none) ∨
+     (e = "ExplicitDefaultInDefault" ∧ w.getValueAt fb.default target = .ok (some .dflt))) ∧
+    definesAt w target fb.default = false := by
+  have := findDefining_err_inv w fb target fuel visited cur e h
+  refine ⟨this, ?_⟩
+  rcases this with ⟨_, h'⟩ | ⟨_, h'⟩
+  · exact definesAt_of_undef (.inl h')
+  · exact definesAt_of_undef (.inr h')
+
+/--
+**Converse: the walk is complete.**  When the default locale has no `inherits` entry (guaranteed by `Config.new`,
+`Proofs/Config.lean` `new_ok`: `AMap.contains d inherits = false`) and no lookup of the target panics, the outcome of
+the walk is determined by the effective locale `e` of the target for `top`: if `e` defines the target the walk
+returns `(e, value stored at (e, target))`; otherwise `e` is the default locale and the walk fails with one of the
+two errors.  The hypothesis on the default locale is needed: with `default = en`, `inherits = [(en, fr)]`, target
+defined in `fr` only, a reference in `en` fails although `effective … en = fr`.
+-/
+theorem C06_fallback_walk_complete (w : World) (fb : Fallbacks) (top : Str) (target : KeyPath)
+    (hD : AMap.get? fb.default fb.inherits = none) (hp : ∀ x p, w.getValueAt x target ≠ .panic p) :
+    let e := Spec.Fallback.effective fb.inherits fb.default (definesAt w target) top
+    (definesAt w target e = true →
+      ∃ v, findDefining w fb (fb.inherits.length + 2) [] top target = .ok (e, v) ∧
+        w.getValueAt e target = .ok (some v)) ∧
+    (definesAt w target e = false → e = fb.default ∧
+      (findDefining w fb (fb.inherits.length + 2) [] top target = .err "MissingForeignKey" ∨
+       findDefining w fb (fb.inherits.length + 2) [] top target = .err "ExplicitDefaultInDefault")) := by
+  intro e
+  cases hw : findDefining w fb (fb.inherits.length + 2) [] top target with
+  | ok r =>
+    obtain ⟨src, v⟩ := r
+    obtain ⟨hs, hv, he⟩ := (C06_target_from_fallback_walk w fb top target).2 src v hw
+    have he' : src = e := he
+    subst he'
+    refine ⟨fun _ => ⟨v, rfl, hs⟩, fun hn => ?_⟩
+    rw [definesAt_of_stored hs hv] at hn; cases hn
+  | panic p =>
+    obtain ⟨x, hx⟩ := findDefining_fuel w fb target _ [] top List.nodup_nil (by simp) (by simp) (by simp) p hw
+    exact absurd hx (hp x p)
+  | err x =>
+    have he : e = fb.default :=
+      findDefining_err_walk w fb target hD _ (fb.inherits.length + 1) [] top x (by simp) (by simp) hw
+    obtain ⟨hx, hdn⟩ := C06_missing_only_at_default w fb _ _ _ _ _ hw
+    refine ⟨fun hdef => ?_, fun _ => ⟨he, ?_⟩⟩
+    · rw [he, hdn] at hdef; cases hdef
+    · rcases hx with ⟨rfl, _⟩ | ⟨rfl, _⟩
+      · exact .inl rfl
+      · exact .inr rfl
+
+/--
+**Arguments and population belong to the locale of the reference.**  One step of `resolveNode`, unfolded: the
+walk (`findDefining`, which depends on neither the oracle nor the keys in progress) yields `(src, value)`; the value
+is resolved as the key `(src, target)` *of locale `src`* (its own references are looked up from `src`), guarded
+against cycles by that key; the arguments are resolved with lookup locale `top`, in the key `phys` of the
+reference; and the target is populated with locale `top` — so the plural category of a literal count is the one of
+the reference's locale — whatever `src` is.
+-/
+theorem C06_args_in_reference_locale (orc : Oracle) (w : World) (dflt : Fallbacks) (fuel : Nat)
+    (vis : List KeyId) (phys : KeyId) (top : Str) (target : KeyPath) (args : List (Str × PV)) :
+    resolveNode orc w dflt (fuel + 1) vis phys top target args =
+      match findDefining w dflt (dflt.inherits.length + 2) [] top target with
+      | .err e => .err e
+      | .panic p => .panic p
+      | .ok (src, value) =>
+        if (phys :: vis).contains (src, target) then .err "RecursiveForeignKey" else
+        match resolvePV orc w dflt fuel (phys :: vis) (src, target) src value with
+        | .err e => .err e
+        | .panic p => .panic p
+        | .ok value' =>
+          match resolveArgs orc w dflt fuel (phys :: vis) phys top args with
+          | .err e => .err e
+          | .panic p => .panic p
+          | .ok args' =>
+            match populate orc top args' value' with
+            | .ok v => .ok (.fk (.set v))
+            | .err e => .err e
+            | .panic p => .panic p :=
+  resolveNode_succ orc w dflt fuel vis phys top target args
+
+/-- the same as a characterisation of success -/
+theorem C06_args_in_reference_locale_ok (orc : Oracle) (w : World) (dflt : Fallbacks) (fuel : Nat)
+    (vis : List KeyId) (phys : KeyId) (top : Str) (target : KeyPath) (args : List (Str × PV)) (r : PV) :
+    resolveNode orc w dflt (fuel + 1) vis phys top target args = .ok r ↔
+      ∃ src value value' args' v,
+        findDefining w dflt (dflt.inherits.length + 2) [] top target = .ok (src, value) ∧
+        (src, target) ∉ phys :: vis ∧
+        resolvePV orc w dflt fuel (phys :: vis) (src, target) src value = .ok value' ∧
+        resolveArgs orc w dflt fuel (phys :: vis) phys top args = .ok args' ∧
+        populate orc top args' value' = .ok v ∧ r = .fk (.set v) := by
+  constructor
+  · exact resolveNode_ok_inv_walk orc w dflt fuel vis phys top target args
+  · rintro ⟨src, value, value', args', v, hfd, hin, hv, ha, hp, rfl⟩
+    exact resolveNode_ok_eq_walk orc w dflt fuel vis phys top target args hfd (by simpa using hin) hv ha hp
+
+/-- and the rendering: for every environment `ρ` agreeing with the oracle *of `top`*, the resolved reference shows
+    what the resolved target shows with the resolved arguments substituted (`C06_resolveNode_sound` needs no
+    relation between `ρ` and the oracle of `src`) -/
+theorem C06_reference_renders_in_top (orc : Oracle) (w : World) (dflt : Fallbacks) (fuel : Nat)
+    (vis : List KeyId) (phys : KeyId) (top : Str) (target : KeyPath) (args : List (Str × PV)) (r : PV)
+    (hr : resolveNode orc w dflt (fuel + 1) vis phys top target args = .ok r) :
+    ∃ src value value' args',
+      findDefining w dflt (dflt.inherits.length + 2) [] top target = .ok (src, value) ∧
+      src = Spec.Fallback.effective dflt.inherits dflt.default (definesAt w target) top ∧
+      w.getValueAt src target = .ok (some value) ∧
+      resolvePV orc w dflt fuel (phys :: vis) (src, target) src value = .ok value' ∧
+      resolveArgs orc w dflt fuel (phys :: vis) phys top args = .ok args' ∧
+      ∀ ρ, OracleAgrees orc top ρ → PluralsWf value' = true →
+        Eval.eval ρ r = Eval.eval (substEnv ρ args') value' := by
+  obtain ⟨src, value, value', args', v, hfd, _, hv, ha, hp, rfl⟩ :=
+    resolveNode_ok_inv_walk orc w dflt fuel vis phys top target args hr
+  obtain ⟨hs, _, he⟩ := (C06_target_from_fallback_walk w dflt top target).2 src value hfd
+  refine ⟨src, value, value', args', hfd, he, hs, hv, ha, fun ρ hO hwf => ?_⟩
+  simp only [Eval.eval]
+  exact C06_populate_subst orc top args' ρ value' v hO hwf hp
 
 /-! ## Examples -/
 
@@ -329,6 +595,8 @@ namespace Ex
 def kp (k : String) : KeyPath := ⟨none, [k.toList]⟩
 def s (x : String) : PV := .lit (.str x.toList none)
 def en : Str := "en".toList
+/-- one locale, which is the default one, no `inherits` -/
+def fbEn : Fallbacks := ⟨en, []⟩
 def mkWorld (keys : List (Str × PV)) : World := ⟨false, [⟨none, [Loc.mk en en keys [] 0]⟩]⟩
 theorem mkWorld_get (keys : List (Str × PV)) (k : String) :
     (mkWorld keys).getValueAt en (kp k) = .ok (AMap.get? k.toList keys) :=
@@ -371,21 +639,21 @@ def va : PV := .fk (.notSet (kp "b") [("x".toList, s "Bob")])
 def keys3 : List (Str × PV) := [("a".toList, va), ("b".toList, vb), ("c".toList, vc)]
 def w3 : World := mkWorld keys3
 
-example : resolvePV orc w3 en 10 [] (en, kp "a") en va
+example : resolvePV orc w3 fbEn 10 [] (en, kp "a") en va
     = .ok (.fk (.set (.comp "i".toList (.bloc [s "Hi ", s "Bob"])))) := by
-  have hc : resolveNode orc w3 en 6 [(en, kp "a")] (en, kp "b") en (kp "c")
-      [("y".toList, .var "x".toList .none)] true = .ok (.fk (.set (.bloc [s "Hi ", .var "x".toList .none]))) :=
+  have hc : resolveNode orc w3 fbEn 6 [(en, kp "a")] (en, kp "b") en (kp "c")
+      [("y".toList, .var "x".toList .none)] = .ok (.fk (.set (.bloc [s "Hi ", .var "x".toList .none]))) :=
     resolveNode_ok_eq (value := vc) (value' := vc) (args' := [("y".toList, .var "x".toList .none)])
-      orc w3 en 5 _ _ en (kp "c") _ true
+      orc w3 fbEn 5 _ _ en (kp "c") _
       (mkWorld_get keys3 "c") (by simp [vc]) (by decide)
       (resolvePV_id _ _ _ _ _ _ _ _ (by decide) (by decide))
       (resolveArgs_id _ _ _ _ _ _ _ _ (by decide) (by decide)) rfl
-  have hb : resolvePV orc w3 en 8 [(en, kp "a")] (en, kp "b") en vb
+  have hb : resolvePV orc w3 fbEn 8 [(en, kp "a")] (en, kp "b") en vb
       = .ok (.comp "i".toList (.fk (.set (.bloc [s "Hi ", .var "x".toList .none])))) := by
     rw [vb, resolvePV_comp, resolvePV_notSet, hc]; rfl
   rw [va, resolvePV_notSet]
   exact resolveNode_ok_eq (value := vb) (args' := [("x".toList, s "Bob")])
-      orc w3 en 8 _ _ en (kp "b") _ true
+      orc w3 fbEn 8 _ _ en (kp "b") _
       (mkWorld_get keys3 "b") (by simp [vb]) (by decide) hb
       (resolveArgs_id _ _ _ _ _ _ _ _ (by decide) (by decide)) rfl
 
@@ -431,10 +699,10 @@ example : populate orc en [("var_count".toList, .lit (.float ⟨15, 1⟩))] vr =
 
 /-- the same through a reference in a world: `r: {range}`, `k: "$t(r, {"count": 3})"` -/
 def keysR : List (Str × PV) := [("k".toList, .fk (.notSet (kp "r") count3)), ("r".toList, vr)]
-example : resolvePV orc (mkWorld keysR) en 9 [] (en, kp "k") en (.fk (.notSet (kp "r") count3))
+example : resolvePV orc (mkWorld keysR) fbEn 9 [] (en, kp "k") en (.fk (.notSet (kp "r") count3))
     = .ok (.fk (.set (.bloc [.lit (.unsigned 3), s " few"]))) := by
   rw [resolvePV_notSet]
-  exact resolveNode_ok_eq (value := vr) (args' := count3) orc _ en 7 _ _ en (kp "r") _ true
+  exact resolveNode_ok_eq (value := vr) (args' := count3) orc _ fbEn 7 _ _ en (kp "r") _
     (mkWorld_get keysR "r") (by simp [vr]) (by decide)
     (resolvePV_id _ _ _ _ _ _ _ _ (by decide) (by decide))
     (resolveArgs_id _ _ _ _ _ _ _ _ (by decide) (by decide)) rfl
@@ -480,27 +748,140 @@ example : populate orc en count3 (.ranges "var_count".toList .i32 [(.exact ⟨0,
 /-! cycles: `a: "$t(a)"`; `a: "$t(b)"`, `b: "$t(a)"` — for every fuel ≥ 2 / ≥ 4 -/
 def keysSelf : List (Str × PV) := [("a".toList, .fk (.notSet (kp "a") []))]
 example (fuel : Nat) (h : 2 ≤ fuel) :
-    resolvePV orc (mkWorld keysSelf) en fuel [] (en, kp "a") en (.fk (.notSet (kp "a") []))
+    resolvePV orc (mkWorld keysSelf) fbEn fuel [] (en, kp "a") en (.fk (.notSet (kp "a") []))
       = .err "RecursiveForeignKey" :=
-  C06_resolve_self_reference orc _ en fuel en (kp "a") [] _ (mkWorld_get keysSelf "a") (by simp) h
+  C06_resolve_self_reference orc _ fbEn fuel en (kp "a") [] _ (mkWorld_get keysSelf "a") (by simp) h
 
 def keysCycle : List (Str × PV) :=
   [("a".toList, .fk (.notSet (kp "b") [])), ("b".toList, .fk (.notSet (kp "a") []))]
 example (fuel : Nat) (h : 4 ≤ fuel) :
-    resolvePV orc (mkWorld keysCycle) en fuel [] (en, kp "a") en (.fk (.notSet (kp "b") []))
+    resolvePV orc (mkWorld keysCycle) fbEn fuel [] (en, kp "a") en (.fk (.notSet (kp "b") []))
       = .err "RecursiveForeignKey" :=
-  C06_resolve_two_cycle orc _ en fuel en (kp "a") (kp "b") [] [] (by decide)
+  C06_resolve_two_cycle orc _ fbEn fuel en (kp "a") (kp "b") [] [] (by decide)
     (mkWorld_get keysCycle "a") (mkWorld_get keysCycle "b") h
 /-- with too little fuel the answer is "not enough fuel", never a wrong value -/
-example : resolvePV orc (mkWorld keysCycle) en 3 [] (en, kp "a") en (.fk (.notSet (kp "b") []))
+example : resolvePV orc (mkWorld keysCycle) fbEn 3 [] (en, kp "a") en (.fk (.notSet (kp "b") []))
       = .panic "fuel" := by
-  rw [resolvePV_notSet, resolveNode_succ, mkWorld_get keysCycle "b"]
+  rw [resolvePV_notSet, resolveNode_succ,
+    show findDefining (mkWorld keysCycle) fbEn (fbEn.inherits.length + 2) [] en (kp "b") = _ from
+      nodeWalk_here _ fbEn en (kp "b") (mkWorld_get keysCycle "b") (by simp)]
   rfl
 /-- a missing target -/
 example (fuel : Nat) :
-    resolvePV orc (mkWorld keysCycle) en (fuel + 2) [] (en, kp "a") en (.fk (.notSet (kp "zz") []))
+    resolvePV orc (mkWorld keysCycle) fbEn (fuel + 2) [] (en, kp "a") en (.fk (.notSet (kp "zz") []))
       = .err "MissingForeignKey" :=
-  C06_resolve_missing orc _ en fuel [] _ en (kp "zz") [] (mkWorld_get keysCycle "zz")
+  C06_resolve_missing_default orc _ fbEn fuel [] _ en (kp "zz") [] (mkWorld_get keysCycle "zz") rfl
+
+/-! ### three locales: `fr-CA` inherits `fr`, default `en`; `greet` is `null` in `fr-CA`, defined in `fr`
+    (the situation of defects F11/F20) -/
+def fr : Str := "fr".toList
+def frCA : Str := "fr-CA".toList
+def fb3 : Fallbacks := ⟨en, [(frCA, fr)]⟩
+def mkWorld3 (ken kfr kca : List (Str × PV)) : World :=
+  ⟨false, [⟨none, [Loc.mk en en ken [] 0, Loc.mk fr fr kfr [] 0, Loc.mk frCA frCA kca [] 0]⟩]⟩
+theorem mkWorld3_get_en (ken kfr kca : List (Str × PV)) (k : String) :
+    (mkWorld3 ken kfr kca).getValueAt en (kp k) = .ok (AMap.get? k.toList ken) := by
+  simp [mkWorld3, World.getValueAt, Loc.name, World.locGet, Loc.keys, kp, en, fr, frCA]
+theorem mkWorld3_get_fr (ken kfr kca : List (Str × PV)) (k : String) :
+    (mkWorld3 ken kfr kca).getValueAt fr (kp k) = .ok (AMap.get? k.toList kfr) := by
+  simp [mkWorld3, World.getValueAt, Loc.name, World.locGet, Loc.keys, kp, en, fr, frCA]
+theorem mkWorld3_get_ca (ken kfr kca : List (Str × PV)) (k : String) :
+    (mkWorld3 ken kfr kca).getValueAt frCA (kp k) = .ok (AMap.get? k.toList kca) := by
+  simp [mkWorld3, World.getValueAt, Loc.name, World.locGet, Loc.keys, kp, en, fr, frCA]
+
+def greetEn : PV := .bloc [s "Hello ", .var "name".toList .none]
+def greetFr : PV := .bloc [s "Bonjour ", .var "name".toList .none]
+def argsLuc : List (Str × PV) := [("name".toList, s "Luc")]
+def kEn : List (Str × PV) := [("greet".toList, greetEn)]
+def kFr : List (Str × PV) := [("greet".toList, greetFr)]
+def kCa : List (Str × PV) := [("greet".toList, .dflt), ("hi".toList, .fk (.notSet (kp "greet") argsLuc))]
+def wL : World := mkWorld3 kEn kFr kCa
+
+/-- `C06_target_from_fallback_walk`: from `fr-CA` the walk finds `greet` in `fr` (not in `en`, as before the repair) -/
+theorem wL_walk : findDefining wL fb3 (fb3.inherits.length + 2) [] frCA (kp "greet") = .ok (fr, greetFr) := by
+  have h1 : wL.getValueAt frCA (kp "greet") = .ok (some .dflt) := mkWorld3_get_ca kEn kFr kCa "greet"
+  have h2 : wL.getValueAt fr (kp "greet") = .ok (some greetFr) := mkWorld3_get_fr kEn kFr kCa "greet"
+  have hn : nextLocale fb3 [frCA] frCA = fr := by decide
+  rw [show fb3.inherits.length + 2 = 2 + 1 from rfl,
+    findDefining_step wL fb3 2 [] frCA (kp "greet") (.inr h1) (by decide), hn]
+  exact findDefining_here wL fb3 1 [frCA] fr (kp "greet") h2 (by simp [greetFr])
+/-- … which is the effective locale of `greet` for `fr-CA` (the instance of the theorem) -/
+example : Spec.Fallback.effective fb3.inherits fb3.default (definesAt wL (kp "greet")) frCA = fr :=
+  (((C06_target_from_fallback_walk wL fb3 frCA (kp "greet")).2 fr greetFr wL_walk).2.2).symm
+example : wL.getValueAt fr (kp "greet") = .ok (some greetFr) ∧ greetFr ≠ .dflt :=
+  let h := (C06_target_from_fallback_walk wL fb3 frCA (kp "greet")).2 fr greetFr wL_walk
+  ⟨h.1, h.2.1⟩
+/-- the hypotheses of `C06_fallback_walk_complete` hold here -/
+example : AMap.get? fb3.default fb3.inherits = none := by decide
+
+/-- the reference `hi` of `fr-CA` gets the French text -/
+example : resolvePV orc wL fb3 9 [] (frCA, kp "hi") frCA (.fk (.notSet (kp "greet") argsLuc))
+    = .ok (.fk (.set (.bloc [s "Bonjour ", s "Luc"]))) := by
+  rw [resolvePV_notSet]
+  exact resolveNode_ok_eq_walk (value := greetFr) (args' := argsLuc) orc wL fb3 7 _ _ frCA (kp "greet") _
+    wL_walk (by decide)
+    (resolvePV_id _ _ _ _ _ _ _ _ (by decide) (by decide))
+    (resolveArgs_id _ _ _ _ _ _ _ _ (by decide) (by decide)) rfl
+example : Eval.eval ρ (.fk (.set (.bloc [s "Bonjour ", s "Luc"]))) = "Bonjour Luc".toList := by decide
+
+/-- `C06_missing_only_at_default`: a key that no locale has — the error comes from the default locale -/
+example : findDefining wL fb3 (fb3.inherits.length + 2) [] frCA (kp "zz") = .err "MissingForeignKey" := by
+  have h1 : wL.getValueAt frCA (kp "zz") = .ok none := mkWorld3_get_ca kEn kFr kCa "zz"
+  have h2 : wL.getValueAt fr (kp "zz") = .ok none := mkWorld3_get_fr kEn kFr kCa "zz"
+  have h3 : wL.getValueAt en (kp "zz") = .ok none := mkWorld3_get_en kEn kFr kCa "zz"
+  have hn : nextLocale fb3 [frCA] frCA = fr := by decide
+  have hn' : nextLocale fb3 [fr, frCA] fr = en := by decide
+  rw [show fb3.inherits.length + 2 = 2 + 1 from rfl,
+    findDefining_step wL fb3 2 [] frCA (kp "zz") (.inl h1) (by decide), hn,
+    findDefining_step wL fb3 1 [frCA] fr (kp "zz") (.inl h2) (by decide), hn']
+  exact findDefining_default_none wL fb3 0 _ en (kp "zz") h3 (by decide)
+
+/-! `C06_args_in_reference_locale`: the plural category of a literal count is the one of the locale of the
+    reference.  The oracle of this example puts `0` in category `one` for `fr-CA` and in `other` elsewhere; the
+    plural lives in `fr`, the reference in `fr-CA`. -/
+def orcL : Oracle :=
+  ⟨fun _ _ => some [.one, .other], fun l _ _ => if l == frCA then some .one else some .other⟩
+def nb : PV := .plurals .cardinal "var_count".toList (s "des pommes") [(.one, s "une pomme")]
+def count0 : List (Str × PV) := [("var_count".toList, .lit (.unsigned 0))]
+def kFrP : List (Str × PV) := [("nb".toList, nb)]
+def kCaP : List (Str × PV) := [("k".toList, .fk (.notSet (kp "nb") count0))]
+def wP : World := mkWorld3 [] kFrP kCaP
+theorem wP_walk : findDefining wP fb3 (fb3.inherits.length + 2) [] frCA (kp "nb") = .ok (fr, nb) := by
+  have h1 : wP.getValueAt frCA (kp "nb") = .ok none := mkWorld3_get_ca [] kFrP kCaP "nb"
+  have h2 : wP.getValueAt fr (kp "nb") = .ok (some nb) := mkWorld3_get_fr [] kFrP kCaP "nb"
+  have hn : nextLocale fb3 [frCA] frCA = fr := by decide
+  rw [show fb3.inherits.length + 2 = 2 + 1 from rfl,
+    findDefining_step wP fb3 2 [] frCA (kp "nb") (.inl h1) (by decide), hn]
+  exact findDefining_here wP fb3 1 [frCA] fr (kp "nb") h2 (by simp [nb])
+example : resolvePV orcL wP fb3 9 [] (frCA, kp "k") frCA (.fk (.notSet (kp "nb") count0))
+    = .ok (.fk (.set (s "une pomme"))) := by
+  rw [resolvePV_notSet, C06_args_in_reference_locale, wP_walk]
+  have hv : resolvePV orcL wP fb3 7 [(frCA, kp "k")] (fr, kp "nb") fr nb = .ok nb :=
+    resolvePV_id _ _ _ _ _ _ _ _ (by decide) (by decide)
+  have ha : resolveArgs orcL wP fb3 7 [(frCA, kp "k")] (frCA, kp "k") frCA count0 = .ok count0 :=
+    resolveArgs_id _ _ _ _ _ _ _ _ (by decide) (by decide)
+  have hc : ([(frCA, kp "k")] : List KeyId).contains (fr, kp "nb") = false := by decide
+  simp only [hc, hv, ha]
+  rfl
+/-- populated in the locale the value came from, the other form would have been chosen -/
+example : populate orcL fr count0 nb = .ok (s "des pommes") := rfl
+example : populate orcL frCA count0 nb = .ok (s "une pomme") := rfl
+
+/-- the hypothesis of `C06_fallback_walk_complete` on the default locale is needed: here the default locale `en`
+    has an `inherits` entry; a reference made in `en` fails although the specification walk goes on to `fr` -/
+def fbBad : Fallbacks := ⟨en, [(en, fr)]⟩
+def wB : World := mkWorld3 [] kFr []
+example : findDefining wB fbBad (fbBad.inherits.length + 2) [] en (kp "greet") = .err "MissingForeignKey" :=
+  findDefining_default_none wB fbBad 2 [] en (kp "greet") (mkWorld3_get_en [] kFr [] "greet") (by decide)
+example : Spec.Fallback.effective fbBad.inherits fbBad.default (definesAt wB (kp "greet")) en = fr := by
+  have h1 : definesAt wB (kp "greet") en = false :=
+    definesAt_of_undef (.inl (mkWorld3_get_en [] kFr [] "greet"))
+  have h2 : definesAt wB (kp "greet") fr = true :=
+    definesAt_of_stored (mkWorld3_get_fr [] kFr [] "greet") (by simp [greetFr])
+  have hg : AMap.get? en fbBad.inherits = some fr := by decide
+  have hl : fbBad.inherits.length = 1 := rfl
+  simp only [Spec.Fallback.effective, hl, Spec.Fallback.walk, h1, h2, hg, List.contains_nil, Bool.false_eq_true,
+    if_false, if_true]
 end Ex
 
 end I18nVerif.Foreign
